@@ -272,6 +272,8 @@ def run(ctx):
     _il10.import_module("rules.c06").compiler_var_scans_complete(db, rep, "D12-VAR-SCAN-COMPLETE")
     d13_wide_constant_uses_upper_half(db, rep)
     d14_declared_alignment_after_head(db, rep)
+    __import__("importlib").import_module("rules.c06").accumulator_walks_complete(db, rep, "D15-ACCUMULATOR-WALKS")
+    d16_setter_prints_its_field(db, rep)
     # a generated wrapper hands native code an uncleared stack executor: every counter the code reads must have been stored by it (shared with C03 D8)
     import emitstate as _es
     _names = {}
@@ -683,4 +685,31 @@ def d14_declared_alignment_after_head(db, rep, rule="D14-DECLARED-ALIGNMENT-AFTE
                   line=first.line)
     if n < 1:
         raise AnalysisBroken("orc_x86_compile: no orc_x86_emit_loop inside the head region")
+    return n
+
+
+def d16_setter_prints_its_field(db, rep, rule="D16-SETTER-FIELD"):
+    """orcc writes the program's loop attributes into the generated initialisation code as `orc_program_set_<attr> (p, %d)`.  The
+    value printed for `%d` must be that attribute of the parsed program (`p-><attr>`): with another one (constant_n for
+    constant_m) the generated function compiles a program that differs from the source - under --compat below 0.4.16.1, where the
+    program is rebuilt through these calls, a 2-D function with constant n and m runs n rows in JIT mode."""
+    import re
+    tu = db.tu("orcc")
+    n = 0
+    for f in tu.main_functions():
+        for c in {c.id: c for c in f.calls("fprintf")}.values():
+            a = c.args()
+            lit = strip_casts(a[1]) if len(a) > 1 else None
+            t = lit.get("str", "") if lit is not None and lit.k == "StringLiteral" else ""
+            m = re.search(r"orc_program_set_([a-z_0-9]+) \(p, %d\)", t)
+            if not m or len(a) < 3:
+                continue
+            n += 1
+            rep.saw(f)
+            got = access_path(strip_casts(a[2])) or unparse(a[2])
+            rep.check(got.endswith("->" + m.group(1)), rule, where(f), "%s@%s" % (m.group(1), c.line), "the setter call is printed with the attribute it sets",
+                      "%s prints `orc_program_set_%s (p, %%d)` with the value of `%s`: the generated code gives the program another %s than the source has" %
+                      (f.name, m.group(1), got, m.group(1)), line=c.line)
+    if n < 5:
+        raise AnalysisBroken("only %d printed attribute setters found in orcc.c" % n)
     return n
